@@ -1,8 +1,238 @@
 //! M-FRAME: alignment of the input AST (after resolver) with the visitor's raw output AST.
+//! Everything outside JSX expressions must be unchanged, except: generated items at the
+//! head of statement lists, expression-bodied arrows converted to a block that only holds
+//! generated declarations + `return <original body>`, and (resolveType) the options argument
+//! of `defineComponent(...)` calls.
 use serde_json::{json, Value};
 use swc_core::ecma::ast::Program;
 use swc_vue_jsx_visitor::Options;
 
-pub fn check(_input: &Program, _raw: &Program, _options: &Options) -> Value {
-    json!({"ok": Value::Null, "reason": "not implemented"})
+struct Ctx {
+    resolve_type: bool,
+    nodes: usize,
+    jsx_skipped: usize,
+    generated_items: usize,
+    arrows_converted: usize,
+    dc_calls: usize,
+}
+
+fn ty(v: &Value) -> Option<&str> {
+    v.get("type").and_then(|t| t.as_str())
+}
+
+fn is_dummy_span(v: &Value) -> bool {
+    match v.get("span") {
+        Some(s) => s.get("start").and_then(|x| x.as_u64()) == Some(0) && s.get("end").and_then(|x| x.as_u64()) == Some(0),
+        None => false,
+    }
+}
+
+fn is_generated_item(v: &Value) -> bool {
+    matches!(ty(v), Some("ImportDeclaration") | Some("FunctionDeclaration") | Some("VariableDeclaration")) && is_dummy_span(v)
+}
+
+fn contains_jsx(v: &Value) -> bool {
+    match v {
+        Value::Object(m) => {
+            if matches!(ty(v), Some("JSXElement") | Some("JSXFragment")) {
+                return true;
+            }
+            m.values().any(contains_jsx)
+        }
+        Value::Array(a) => a.iter().any(contains_jsx),
+        _ => false,
+    }
+}
+
+fn short(v: &Value) -> String {
+    let s = v.to_string();
+    if s.len() > 300 {
+        format!("{}...", &s[..300])
+    } else {
+        s
+    }
+}
+
+type Res = Result<(), (String, String, String)>;
+
+fn fail(path: &str, why: &str, a: &Value, b: &Value) -> Res {
+    Err((path.to_string(), why.to_string(), format!("in={} out={}", short(a), short(b))))
+}
+
+fn is_define_component_callee(v: &Value) -> bool {
+    ty(v) == Some("Identifier") && v.get("value").and_then(|x| x.as_str()) == Some("defineComponent")
+}
+
+fn prop_key_name(p: &Value) -> Option<String> {
+    let key = p.get("key")?;
+    key.get("value").and_then(|x| x.as_str()).map(|s| s.to_string())
+}
+
+fn walk_dc_options(cx: &mut Ctx, a: Option<&Value>, b: Option<&Value>, path: &str) -> Res {
+    let injected = |p: &Value| -> bool {
+        ty(p) == Some("KeyValueProperty")
+            && matches!(prop_key_name(p).as_deref(), Some("props") | Some("emits") | Some("name"))
+            && p.get("key").map(is_dummy_span).unwrap_or(false)
+    };
+    match (a, b) {
+        (None, None) => Ok(()),
+        (None, Some(b)) => {
+            // a purely generated options object
+            let expr = b.get("expression").unwrap_or(b);
+            let props = expr.get("properties").and_then(|p| p.as_array());
+            match props {
+                Some(ps) if ty(expr) == Some("ObjectExpression") && ps.iter().all(injected) => Ok(()),
+                _ => fail(path, "defineComponent gained an argument that is not a generated options object", &Value::Null, b),
+            }
+        }
+        (Some(a), None) => fail(path, "defineComponent lost its options argument", a, &Value::Null),
+        (Some(a), Some(b)) => {
+            if a.get("spread").map(|s| !s.is_null()).unwrap_or(false) {
+                return walk(cx, a, b, path);
+            }
+            let ae = a.get("expression").unwrap_or(a);
+            let be = b.get("expression").unwrap_or(b);
+            if ty(be) == Some("ObjectExpression") {
+                let bps: Vec<&Value> = be.get("properties").and_then(|p| p.as_array()).map(|v| v.iter().collect()).unwrap_or_default();
+                let kept: Vec<&Value> = bps.iter().copied().filter(|p| !injected(p)).collect();
+                if ty(ae) == Some("ObjectExpression") {
+                    let aps = ae.get("properties").and_then(|p| p.as_array()).cloned().unwrap_or_default();
+                    if aps.len() != kept.len() {
+                        return fail(path, "user option members changed", ae, be);
+                    }
+                    for (i, (x, y)) in aps.iter().zip(kept.iter()).enumerate() {
+                        walk(cx, x, y, &format!("{path}.properties[{i}]"))?;
+                    }
+                    return Ok(());
+                }
+                // wrapper form: { injected..., ...original }
+                if kept.len() == 1 && ty(kept[0]) == Some("SpreadElement") && is_dummy_span(be) {
+                    if let Some(arg) = kept[0].get("arguments").or_else(|| kept[0].get("argument")) {
+                        return walk(cx, ae, arg, &format!("{path}.spread"));
+                    }
+                }
+            }
+            walk(cx, a, b, path)
+        }
+    }
+}
+
+fn walk(cx: &mut Ctx, a: &Value, b: &Value, path: &str) -> Res {
+    cx.nodes += 1;
+    match (a, b) {
+        (Value::Object(ma), Value::Object(mb)) => {
+            if matches!(ty(a), Some("JSXElement") | Some("JSXFragment")) {
+                cx.jsx_skipped += 1;
+                return Ok(());
+            }
+            // arrow with expression body containing JSX -> block { generated decls; return body }
+            if ty(a) == Some("ArrowFunctionExpression") && ty(b) == Some("ArrowFunctionExpression") {
+                let ab = a.get("body").unwrap_or(&Value::Null);
+                let bb = b.get("body").unwrap_or(&Value::Null);
+                if ty(ab) != Some("BlockStatement") && ty(bb) == Some("BlockStatement") && is_dummy_span(bb) && contains_jsx(ab) {
+                    let stmts = bb.get("stmts").and_then(|s| s.as_array()).cloned().unwrap_or_default();
+                    let (ret, decls) = match stmts.split_last() {
+                        Some(x) => x,
+                        None => return fail(path, "arrow body became an empty block", ab, bb),
+                    };
+                    if !decls.iter().all(is_generated_item) || ty(ret) != Some("ReturnStatement") {
+                        return fail(path, "arrow body block holds more than generated declarations + return", ab, bb);
+                    }
+                    cx.arrows_converted += 1;
+                    cx.generated_items += decls.len();
+                    for (k, va) in ma {
+                        if k == "span" || k == "body" {
+                            continue;
+                        }
+                        match mb.get(k) {
+                            Some(vb) => walk(cx, va, vb, &format!("{path}.{k}"))?,
+                            None => return fail(&format!("{path}.{k}"), "field missing in output", va, &Value::Null),
+                        }
+                    }
+                    return walk(cx, ab, ret.get("argument").unwrap_or(&Value::Null), &format!("{path}.body"));
+                }
+            }
+            // defineComponent(...) under resolveType: the options argument may be augmented
+            if cx.resolve_type && ty(a) == Some("CallExpression") && ty(b) == Some("CallExpression") && a.get("callee").map(is_define_component_callee).unwrap_or(false) {
+                let aa = a.get("arguments").and_then(|x| x.as_array()).cloned().unwrap_or_default();
+                let ba = b.get("arguments").and_then(|x| x.as_array()).cloned().unwrap_or_default();
+                if aa.len() <= 2 && ba.len() <= 2 && !aa.is_empty() && !ba.is_empty() {
+                    cx.dc_calls += 1;
+                    for (k, va) in ma {
+                        if k == "span" || k == "arguments" {
+                            continue;
+                        }
+                        match mb.get(k) {
+                            Some(vb) => walk(cx, va, vb, &format!("{path}.{k}"))?,
+                            None => return fail(&format!("{path}.{k}"), "field missing in output", va, &Value::Null),
+                        }
+                    }
+                    walk(cx, &aa[0], &ba[0], &format!("{path}.arguments[0]"))?;
+                    return walk_dc_options(cx, aa.get(1), ba.get(1), &format!("{path}.arguments[1]"));
+                }
+            }
+            for (k, va) in ma {
+                if k == "span" {
+                    continue;
+                }
+                match mb.get(k) {
+                    Some(vb) => walk(cx, va, vb, &format!("{path}.{k}"))?,
+                    None => return fail(&format!("{path}.{k}"), "field missing in output", va, &Value::Null),
+                }
+            }
+            for k in mb.keys() {
+                if !ma.contains_key(k) {
+                    return fail(&format!("{path}.{k}"), "field added in output", &Value::Null, &mb[k]);
+                }
+            }
+            Ok(())
+        }
+        (Value::Array(va), Value::Array(vb)) => {
+            let mut vb_slice: &[Value] = vb;
+            if va.len() != vb.len() {
+                // generated items may only be inserted at the head of a statement list
+                let extra = vb.len().saturating_sub(va.len());
+                if vb.len() < va.len() || !vb[..extra].iter().all(is_generated_item) {
+                    return fail(path, "list length changed (not by generated head items)", &json!(va.len()), &json!(vb.len()));
+                }
+                cx.generated_items += extra;
+                vb_slice = &vb[extra..];
+            }
+            for (i, (x, y)) in va.iter().zip(vb_slice.iter()).enumerate() {
+                walk(cx, x, y, &format!("{path}[{i}]"))?;
+            }
+            Ok(())
+        }
+        _ => {
+            if a == b {
+                Ok(())
+            } else {
+                fail(path, "value changed", a, b)
+            }
+        }
+    }
+}
+
+pub fn check(input: &Program, raw: &Program, options: &Options) -> Value {
+    let a = match serde_json::to_value(input) {
+        Ok(v) => v,
+        Err(e) => return json!({"ok": Value::Null, "reason": format!("serialize input: {e}")}),
+    };
+    let b = match serde_json::to_value(raw) {
+        Ok(v) => v,
+        Err(e) => return json!({"ok": Value::Null, "reason": format!("serialize output: {e}")}),
+    };
+    let mut cx = Ctx {
+        resolve_type: options.resolve_type,
+        nodes: 0,
+        jsx_skipped: 0,
+        generated_items: 0,
+        arrows_converted: 0,
+        dc_calls: 0,
+    };
+    let stats = |cx: &Ctx| json!({"nodes": cx.nodes, "jsx_skipped": cx.jsx_skipped, "generated_items": cx.generated_items, "arrows_converted": cx.arrows_converted, "define_component_calls": cx.dc_calls});
+    match walk(&mut cx, &a, &b, "$") {
+        Ok(()) => json!({"ok": true, "stats": stats(&cx)}),
+        Err((path, why, detail)) => json!({"ok": false, "path": path, "why": why, "detail": detail, "stats": stats(&cx)}),
+    }
 }
